@@ -293,6 +293,8 @@ def cli_partition(rec, rnd, tmp, k):
         parts[rnd.randrange(nparts)].append(r)
     fault_at = rnd.randrange(nparts + 1)
     fault = rnd.choice(['missing', 'invalid-utf8', 'none'])
+    # every file of the split keeps the same format string but its own conventions (delimiter, header line, sign), stated in its source entry
+    convs = [rnd.choice(['plain', 'plain', 'semi', 'nohdr', 'neg']) for _ in range(nparts)]
     results = {}
     for variant in ('one', 'split'):
         root = os.path.join(tmp, 'p%d-%s' % (k, variant))
@@ -302,22 +304,30 @@ def cli_partition(rec, rnd, tmp, k):
         if variant == 'one':
             with open(os.path.join(root, 'data', 'all.csv'), 'w') as f:
                 f.write('Date,Description,Amount\n' + '\n'.join(rows) + '\n')
-            srcs.append(('All', 'data/all.csv'))
+            srcs.append(('All', 'data/all.csv', ''))
         else:
             for j, prt in enumerate(parts):
                 if j == fault_at and fault != 'none':
-                    srcs.append(('Broken', 'data/broken.csv'))
+                    srcs.append(('Broken', 'data/broken.csv', ''))
+                conv = convs[j]
+                lines = list(prt)
+                if conv == 'neg':           # this file writes charges as negatives; its source entry says negate_amount: true
+                    lines = [','.join(l.split(',')[:2] + ['%.2f' % -float(l.split(',')[2])]) for l in lines]
+                if conv == 'semi':
+                    lines = [l.replace(',', ';') for l in lines]
+                hdr = '' if conv == 'nohdr' else ('Date;Description;Amount\n' if conv == 'semi' else 'Date,Description,Amount\n')
                 with open(os.path.join(root, 'data', 's%d.csv' % j), 'w') as f:
-                    f.write('Date,Description,Amount\n' + '\n'.join(prt) + ('\n' if prt else ''))
-                srcs.append(('S%d' % j, 'data/s%d.csv' % j))
+                    f.write(hdr + '\n'.join(lines) + ('\n' if lines else ''))
+                srcs.append(('S%d' % j, 'data/s%d.csv' % j, {'plain': '', 'semi': '    delimiter: ";"\n', 'nohdr': '    has_header: false\n',
+                                                             'neg': '    negate_amount: true\n'}[conv]))
             if fault_at == nparts and fault != 'none':
-                srcs.append(('Broken', 'data/broken.csv'))
+                srcs.append(('Broken', 'data/broken.csv', ''))
             if fault == 'invalid-utf8':
                 with open(os.path.join(root, 'data', 'broken.csv'), 'wb') as f:
                     f.write(b'Date,Description,Amount\n2025-01-01,caf\xe9 \xff,5.00\n')
         with open(os.path.join(root, 'config', 'settings.yaml'), 'w') as f:
             f.write('year: 2025\nmerchants_file: config/merchants.rules\ndata_sources:\n' + ''.join(
-                '  - name: %s\n    file: %s\n    format: "{date:%%Y-%%m-%%d},{description},{amount}"\n' % s_ for s_ in srcs))
+                '  - name: %s\n    file: %s\n    format: "{date:%%Y-%%m-%%d},{description},{amount}"\n%s' % s_ for s_ in srcs))
         with open(os.path.join(root, 'config', 'merchants.rules'), 'w') as f:
             f.write(rules)
         p = B.tally(root, 'up', os.path.join(root, 'config'), '--format', 'json', '-q')
@@ -333,7 +343,7 @@ def cli_partition(rec, rnd, tmp, k):
                 results[variant] = ('unparsable', str(e)[:100])
         shutil.rmtree(root, ignore_errors=True)
     rec.count('cli_partition_checks')
-    case = {'kind': 'cli-partition', 'rows': rows, 'parts': parts, 'fault': fault, 'fault_at': fault_at}
+    case = {'kind': 'cli-partition', 'rows': rows, 'parts': parts, 'fault': fault, 'fault_at': fault_at, 'conventions': convs}
     a, b = results['one'], results['split']
     if a[0] != 'ok':
         return
